@@ -26,7 +26,8 @@ RULE = ("cases: every type expression with <=3 wrappers over the 5 specified sca
         "{inline literal, variable, variable with default, nullable variable with default at a non-null position, variable nested "
         "in a list/object literal}; plus HISTORIES: a schema that has been used, then derived (visibility transform hiding input fields / types, "
         "camel-case transform, `fields` setter, clone; one or two steps), checked against the derived schema's own declaration with the source's values "
-        "in the stream, then the source again; non-trivial = distinct (registry, argument type, default, route, value) whose value is not a "
+        "in the stream, then the source again; plus TREES: nested selections over an interface with two implementations that give the field "
+        "different argument sets/defaults, lists of objects, resolver errors, arguments rejected at depth 2-5; non-trivial = distinct (registry, argument type, default, route, value) whose value is not a "
         "bare scalar-at-scalar success (i.e. involves null, a wrapper, an enum, an input object, a boundary or a rejection)")
 ASSUMPTIONS = [
     "histories: the Lean model is stateless (a registry = what a schema DECLARES, by name); that a derived schema's coercion uses exactly what the "
@@ -1366,7 +1367,8 @@ def run(ctx):
         run_registry(ctx, r, "rnd%d" % i, types, per_type=6 if quick else 10, depth=2,
                      max_cases=250 if quick else 1500, n_abstract=2 if quick else 6, n_trace=30 if quick else 200)
     # schemas with a past: used, then derived (visibility / camel-case transforms, `fields` setter, clone), then checked
-    from corr import C07_history
+    from corr import C07_history, C07_tree
+    C07_tree.run(ctx, sys.modules[__name__])
     C07_history.run(ctx, sys.modules[__name__])
     ctx.extra["int_range_test_source"] = int_range_test()[2]
     ctx.extra["float_finiteness_guard_source"] = float_guard()[1] or ["<none>"]
@@ -1392,6 +1394,9 @@ def replay(ctx, data, record=False):
     reg = U.reg_from_jsonable(inp["reg"])
     before = sum(f["count"] for f in ctx.found if f["kind"] == "property")
     chk = Checker(ctx, reg, "replay")
+    if inp.get("check") == "tree":
+        from corr import C07_tree
+        return C07_tree.replay(ctx, sys.modules[__name__], inp)
     if inp.get("check") == "trace":
         from py_gql import graphql_blocking
         specs = [[dict(a, type=U.ty_from_json(a["type"]), default=None if a["default"] is None else [dict_from_wire(a["default"]["v"])]) for a in sp]
